@@ -48,6 +48,8 @@ def faulted_run(t, bindir, hx, fault=None, timeout=20):
         env["VFAULT_LOG"] = logp
         if fault:
             env.update({"VFAULT_OP": fault[0], "VFAULT_FD": str(fault[1]), "VFAULT_K": str(fault[2]), "VFAULT_ERRNO": str(fault[3])})
+            if len(fault) > 4:
+                env["VFAULT_STICKY"] = "1"
         rc, out, err = tr.run(t.argv(bindir, w, hx), t.stdin, timeout=timeout, env=env, cwd=w)
         return rc, collect(t, w, out), err, parse_log(logp)
 
@@ -56,9 +58,9 @@ def replay_of(t, bindir, hx, fault=None, extra=None):
     r = {"tool": t.label, "argv": t.argv("$BIN", "$W", "$HX"), "stdin_hex": hexs(t.stdin),
          "files_hex": {k: hexs(v) for k, v in t.files.items()}}
     if fault:
-        r["fault"] = {"op": fault[0], "fd": fault[1], "k": fault[2], "errno": fault[3]}
-        r["how"] = ("cd $W && VFAULT_OP=%s VFAULT_FD=%s VFAULT_K=%s VFAULT_ERRNO=%s LD_PRELOAD=$HX/libvfault.so %s < stdin ; echo $?"
-                    % (fault[0], fault[1], fault[2], fault[3], " ".join(t.argv("$BIN", "$W", "$HX"))))
+        r["fault"] = {"op": fault[0], "fd": fault[1], "k": fault[2], "errno": fault[3], "sticky": len(fault) > 4}
+        r["how"] = ("cd $W && VFAULT_OP=%s VFAULT_FD=%s VFAULT_K=%s VFAULT_ERRNO=%s %sLD_PRELOAD=$HX/libvfault.so %s < stdin ; echo $?"
+                    % (fault[0], fault[1], fault[2], fault[3], "VFAULT_STICKY=1 " if len(fault) > 4 else "", " ".join(t.argv("$BIN", "$W", "$HX"))))
     if extra:
         r.update(extra)
     return r
@@ -87,6 +89,10 @@ def phase_faults(c, bindir, hx, model_cases, shard_cases):
                     chosen = [errs[(k + len(op)) % 3]] if k <= n else [errs[0]]
                 for en, eno in chosen:
                     jobs.append((t, (op, "any", k, eno), "fatal"))
+            # a failure that persists (disk stays full, pipe stays broken): every call from the k-th on fails
+            if op == "write":
+                for k in range(1, n + 1):
+                    jobs.append((t, (op, "any", k, 28, "sticky"), "fatal"))
             # benign controls: EINTR is retried by read/write loops; fsync EINVAL is ignored by design
             if op in ("read", "write") and n and t.kind != "iostream":
                 jobs.append((t, (op, "any", 1 + (c.rng.randrange(n)), EINTR), "benign"))
@@ -100,7 +106,7 @@ def phase_faults(c, bindir, hx, model_cases, shard_cases):
     with ThreadPoolExecutor(WORKERS) as ex:
         results = list(ex.map(work, jobs))
     for (t, fault, kind), (rc, outs, err, ev) in results:
-        op, fd, k, eno = fault
+        op, fd, k, eno = fault[:4]
         hit = [e for e in ev if e[0] == op and e[3] == -1 and e[4] == eno]
         base_outs, base_ev = base[t.label]
         bucket = "fault/%s/%s/%s" % (t.kind, op, "hit" if hit else "not-reached") if kind == "fatal" else "control/%s/%s" % (t.kind, op)
@@ -121,6 +127,8 @@ def phase_faults(c, bindir, hx, model_cases, shard_cases):
             c.broken.append("control: %s exits %s under benign fault %s (EINTR retry / ignored fsync errno): %s" % (t.label, rc, fault, err[-200:]))
         if kind == "fatal" and not hit and rc != 0:
             c.broken.append("control: %s exits %s although fault %s was never delivered: %s" % (t.label, rc, fault, err[-200:]))
+        if len(fault) > 4:
+            continue
         model_cases.append((t, fault, rc, ev, base_ev))
         if t.label == "shard":
             shard_cases.append((t, fault, rc, ev, base_ev, base_outs))
